@@ -1,6 +1,11 @@
 //! C01 structural oracle shared by all systems: the primitive-side queue /
-//! heap (read through the snapshot hook) must contain exactly the live futures
-//! whose own poll state says "linked", each once, and nothing else.
+//! heap (read through the snapshot hook, by node address) must contain only
+//! live futures that are waiting at the API level, each at most once, no node
+//! of a dropped future and no unknown node; and every waiting future that has
+//! not been handed a wake-up since its last poll must be in it. The oracle
+//! deliberately does not depend on the implementation's private poll-state
+//! tags, so a refactoring that changes when notified waiters are unlinked does
+//! not trip it.
 
 use crate::core::StepOut;
 use futures_intrusive::verif::NodeSnap;
@@ -9,7 +14,17 @@ pub struct LiveNode {
     pub group: usize,
     pub slot: usize,
     pub node: NodeSnap,
-    pub linked_expected: bool,
+    /// API-level facts kept by the harness (not the implementation's own poll state):
+    /// the future was polled, its last poll returned Pending, it is not dropped
+    pub pending: bool,
+    /// some waker handed to this future was invoked since its last poll
+    pub woken: bool,
+}
+
+impl LiveNode {
+    pub fn new(group: usize, slot: usize, node: NodeSnap, m: &crate::harness::Meta) -> LiveNode {
+        LiveNode { group, slot, node, pending: m.pending(), woken: crate::harness::fresh(group, slot, m) || crate::harness::stale_wake(group, slot, m) }
+    }
 }
 
 /// Returns for every queue position the (group, slot) of the future it belongs to.
@@ -30,8 +45,11 @@ pub fn check_queue(
         seen_addr.push(n.addr);
         match live.iter().find(|l| l.node.addr == n.addr) {
             Some(l) => {
-                if !l.linked_expected {
-                    out.v("C01", "unexpected-member", format!("{}: position {} holds future (group {}, slot {}) whose poll state {} says it is not linked", qname, pos, l.group, l.slot, l.node.tag));
+                // "contains exactly the futures that are alive and currently waiting": a member
+                // must be a future that is pending at the API level (polled, last poll returned
+                // Pending, not dropped) - never one that has completed or was never polled
+                if !l.pending {
+                    out.v("C01", "unexpected-member", format!("{}: position {} holds the future (group {}, slot {}) which is not waiting (never polled, or already completed); its poll state is {}", qname, pos, l.group, l.slot, l.node.tag));
                     out.corrupt = true;
                 }
                 owners.push(Some((l.group, l.slot)));
@@ -56,8 +74,11 @@ pub fn check_queue(
 pub fn check_membership(queues: &[&[NodeSnap]], live: &[LiveNode], out: &mut StepOut) {
     for l in live {
         let n = queues.iter().map(|q| q.iter().filter(|x| x.addr == l.node.addr).count()).sum::<usize>();
-        if l.linked_expected && n == 0 {
-            out.v("C01", "missing-member", format!("future (group {}, slot {}) is in poll state {} (linked) but is not in the wait queue", l.group, l.slot, l.node.tag));
+        // a waiting future may be absent from the queue only if it has been handed a wake-up since
+        // its last poll (notified / fulfilled / expired waiters are unlinked by several primitives);
+        // a waiting future that is neither queued nor woken can never be reached again
+        if l.pending && !l.woken && n == 0 {
+            out.v("C01", "missing-member", format!("future (group {}, slot {}) is waiting (last poll returned Pending, no wake-up since) but is not in the wait queue; its poll state is {}", l.group, l.slot, l.node.tag));
             out.corrupt = true;
         }
     }
